@@ -140,7 +140,7 @@ pub fn run(ctx: &Arc<Ctx>) {
     }
     ctx.sample(serde_json::to_value(&cases[7]).unwrap());
     ctx.sample(serde_json::to_value(&cases[cases.len() - 1]).unwrap());
-    cases.par_iter().for_each(|c| eval(ctx, c));
+    run_cases(ctx, &cases, 64, eval);
 
     // structural coverage: both padding branches, block counts
     let mut blocks = std::collections::BTreeSet::new();
@@ -161,11 +161,14 @@ pub fn run(ctx: &Arc<Ctx>) {
     let depth = 3usize;
     let c2 = ctx.clone();
     let model = HistModel {
+        batch: 64,
         inits: vec![vec![]],
         actions: Box::new(move |h: &[u16]| if h.len() < depth { (0..PURITY_LENS.len() as u16).collect() } else { vec![] }),
-        visit: Box::new(move |h: &[u16]| {
+        visit: Arc::new(move |h: &[u16]| {
             if !h.is_empty() {
-                eval(&c2, &Case::History { seq: h.to_vec() });
+                let c = Case::History { seq: h.to_vec() };
+                eval(&c2, &c);
+                prefix_push(serde_json::to_value(&c).unwrap());
             }
         }),
     };
